@@ -547,6 +547,131 @@ fn sanitize_family(out: &mut Out) {
     }
 }
 
+
+// ------------------------------------------------------------------ convert_roundtrip (C07)
+// The conversions SemVer <-> Zerv <-> PEP 440 (the From impls `zerv render` uses), against the shapes written in the statement.
+fn convert_roundtrip_family(out: &mut Out) {
+    use zerv::version::zerv::Zerv;
+    let fam = "convert_roundtrip";
+    let nums: Vec<u64> = if out.thorough { vec![0, 1, 2, 7, 10, 99, 4294967295] } else { vec![0, 1, 10, 4294967295] };
+    let cores: Vec<(u64, u64, u64)> = vec![(0, 0, 0), (1, 2, 3), (10, 0, 7), (4294967295, 4294967295, 4294967295)];
+    let labels = [("alpha", "a"), ("beta", "b"), ("rc", "rc")];
+    let builds: Vec<Option<&str>> = vec![None, Some("build"), Some("ubuntu.20.4"), Some("a1.b2.7"), Some("g1a2b3c4")];
+    // every canonical shape: X.Y.Z[-[epoch.E.][label.N.][post.P.][dev.D]][+ids], E >= 1
+    let mut shapes: Vec<(String, String)> = Vec::new();   // (semver text, pep440 text)
+    for &(x, y, z) in &cores {
+        for e in [None, Some(1u64), Some(4294967295)] {
+            for pre in [None, Some(0usize), Some(1), Some(2)] {
+                for &n in &nums {
+                    if pre.is_none() && n != nums[0] { continue; }
+                    for p in [None, Some(0u64), Some(5), Some(4294967295)] {
+                        for d in [None, Some(0u64), Some(3), Some(4294967295)] {
+                            for (bi, b) in builds.iter().enumerate() {
+                                // thin the product: all builds only for the small corner
+                                if bi > 1 && !(e.is_none() && p.is_none()) { continue; }
+                                let mut ids: Vec<String> = Vec::new();
+                                let mut pep = String::new();
+                                if let Some(e) = e { ids.push(format!("epoch.{e}")); pep.push_str(&format!("{e}!")); }
+                                pep.push_str(&format!("{x}.{y}.{z}"));
+                                if let Some(l) = pre { ids.push(format!("{}.{n}", labels[l].0)); pep.push_str(&format!("{}{n}", labels[l].1)); }
+                                if let Some(p) = p { ids.push(format!("post.{p}")); pep.push_str(&format!(".post{p}")); }
+                                if let Some(d) = d { ids.push(format!("dev.{d}")); pep.push_str(&format!(".dev{d}")); }
+                                let mut sv = format!("{x}.{y}.{z}");
+                                if !ids.is_empty() { sv.push('-'); sv.push_str(&ids.join(".")); }
+                                if let Some(b) = b { sv.push('+'); sv.push_str(b); pep.push('+'); pep.push_str(b); }
+                                shapes.push((sv, pep));
+                            }
+                        }
+                    }
+                }
+            }
+        }
+    }
+    for (sv_text, pep_text) in &shapes {
+        out.cases += 1;
+        let Ok(sv) = SemVer::from_str(sv_text) else { out.cex(fam, format!("canonical SemVer shape {sv_text:?} is rejected by the SemVer parser")); continue; };
+        let z: Zerv = sv.clone().into();
+        let back = SemVer::from(z.clone()).to_string();
+        if &back != sv_text {
+            out.cex(fam, format!("class=semver-not-unchanged {sv_text:?} -> Zerv -> SemVer prints {back:?}"));
+        }
+        let pep = PEP440::from(z).to_string();
+        if &pep != pep_text {
+            out.cex(fam, format!("class=semver-to-pep440 {sv_text:?} -> Zerv -> PEP 440 prints {pep:?}, expected {pep_text:?}"));
+            continue;
+        }
+        let Ok(p) = PEP440::from_str(&pep) else { out.cex(fam, format!("{pep:?} (rendered from {sv_text:?}) is rejected by the PEP 440 parser")); continue; };
+        let z2: Zerv = p.into();
+        let again = SemVer::from(z2.clone()).to_string();
+        if &again != sv_text {
+            out.cex(fam, format!("class=pep440-back-to-semver {sv_text:?} -> PEP 440 {pep:?} -> SemVer prints {again:?}"));
+        }
+        let pep2 = PEP440::from(z2).to_string();
+        if pep2 != pep {
+            out.cex(fam, format!("class=pep440-not-fixed-point {pep:?} re-converts to {pep2:?}"));
+        }
+    }
+    // accepted PEP 440 strings: fixed point of re-conversion; with at most three release numbers: to SemVer and back to an equal version
+    let mut peps: Vec<String> = Vec::new();
+    for rel in ["1", "1.2", "1.2.3", "0.0.0", "1.2.3.4", "1.0.0.0.5", "4294967295.0.1"] {
+        for e in ["", "1!", "4294967295!"] {
+            for pre in ["", "a0", "a1", "b2", "rc3", "alpha4", "c5", "pre6", "preview7", "A1", "a", "rc"] {
+                for post in ["", ".post0", ".post5", "-7", ".rev2", ".r3", "post4", ".post"] {
+                    for dev in ["", ".dev0", ".dev3", "dev4", ".dev"] {
+                        for loc in ["", "+local", "+ubuntu.20.4", "+Ab-01_c", "+7", "+4294967296", "+a.007"] {
+                            if (pre.len() > 0) as u8 + (post.len() > 0) as u8 + (dev.len() > 0) as u8 + (loc.len() > 0) as u8 > 2 && !out.thorough && rel != "1.2.3" { continue; }
+                            peps.push(format!("{e}{rel}{pre}{post}{dev}{loc}"));
+                        }
+                    }
+                }
+            }
+        }
+    }
+    for text in &peps {
+        out.cases += 1;
+        let Ok(p) = PEP440::from_str(text) else { continue; };
+        let shown = p.to_string();
+        let z: Zerv = p.clone().into();
+        let r1 = PEP440::from(z.clone());
+        if r1.to_string() != shown {
+            out.cex(fam, format!("class=pep440-not-fixed-point {text:?} prints {shown:?}, through Zerv {:?}", r1.to_string()));
+            continue;
+        }
+        if r1 != p {
+            out.cex(fam, format!("class=pep440-not-fixed-point {text:?} -> Zerv -> PEP 440 is not equal to the original under =="));
+        }
+        let sv = SemVer::from(z);
+        let sv_text = sv.to_string();
+        match SemVer::from_str(&sv_text) {
+            Err(e) => out.cex(fam, format!("class=semver-rendering-rejected {text:?} renders to SemVer {sv_text:?}, which the SemVer parser rejects: {e}")),
+            Ok(sv2) => {
+                let z2: Zerv = sv2.into();
+                let sv_again = SemVer::from(z2.clone()).to_string();
+                if sv_again != sv_text {
+                    out.cex(fam, format!("class=semver-rendering-not-fixed-point {text:?} renders to SemVer {sv_text:?}, which re-converts to {sv_again:?}"));
+                }
+                if p.release.len() <= 3 {
+                    let back = PEP440::from(z2);
+                    if back != p {
+                        out.cex(fam, format!("class=pep440-via-semver-not-equal {text:?} ({shown:?}) -> SemVer {sv_text:?} -> PEP 440 {:?}, not an equal version", back.to_string()));
+                    }
+                }
+            }
+        }
+    }
+    // "a numeric field is never silently replaced by another number - a value that cannot be represented is rejected": SemVer -> PEP 440 with numbers above u32::MAX
+    for (field, text) in [("epoch", "1.2.3-epoch.4294967296"), ("post", "1.2.3-post.4294967296"), ("dev", "1.2.3-dev.4294967296"),
+                          ("pre-release number", "1.2.3-rc.4294967296"), ("major", "4294967296.2.3"), ("patch", "1.2.4294967296"), ("post", "1.2.3-post.18446744073709551615")] {
+        out.cases += 1;
+        let Ok(sv) = SemVer::from_str(text) else { continue; };
+        let z: Zerv = sv.into();
+        let res = std::panic::catch_unwind(|| PEP440::from(z).to_string());
+        if let Ok(pep) = res {
+            out.cex(fam, format!("class=number-above-u32-max-silently-changed SemVer {text:?} ({field} above 2^32-1) converts to PEP 440 {pep:?} instead of being rejected"));
+        }
+    }
+}
+
 // ------------------------------------------------------------------ branch rules
 
 fn rule_matches(pattern: &str, branch: &str) -> bool {
@@ -2062,6 +2187,7 @@ fn run_family(fam: &str, out: &mut Out) {
         "pep440_spellings" => pep440_spellings_family(&mut out),
         "flow_rules" => flow_rules_family(&mut out),
         "ron_roundtrip" => ron_roundtrip_family(&mut out),
+        "convert_roundtrip" => convert_roundtrip_family(&mut out),
         "semver_roundtrip" => semver_roundtrip_family(&mut out),
         "pep440_roundtrip" => pep440_roundtrip_family(&mut out),
         "tag_max_semver" => tag_max_family(&mut out, true),
